@@ -46,8 +46,23 @@ def load() -> list[Seed]:
     return out
 
 
-def by_codemod(changing_only: bool = True) -> dict[str, list[Seed]]:
+EXTRA = CORPUS.parent / "extra_seeds.json"
+
+
+@lru_cache(maxsize=1)
+def extra() -> list[Seed]:
+    """Hand-written probes (precedence-sensitive contexts, one-statement blocks, `;`-joined statements ...): inputs only,
+    the expected output is not known (= the input, so they never count as 'documented' edits)."""
+    if not EXTRA.exists():
+        return []
+    return [Seed(codemod=r["codemod"], test="extra::" + r["name"], input=r["input"], expected=r["input"]) for r in json.loads(EXTRA.read_text())]
+
+
+def by_codemod(changing_only: bool = True, with_extra: bool = False) -> dict[str, list[Seed]]:
     d: dict[str, list[Seed]] = {}
+    if with_extra:
+        for s in extra():
+            d.setdefault(s.codemod, []).append(s)
     for s in load():
         if changing_only and not s.changes:
             continue
